@@ -86,6 +86,41 @@ def pkt_line(p: Any) -> str:
     return "pkt " + sers.show(p)
 
 
+class Retain:
+    """The application keeps the packets it was given.  Every delivered packet is retained here as the very object the
+    consumer returned, next to the text it had at the moment of delivery; `finish()` is called once the whole stream has been
+    received and renders every retained packet AGAIN: a packet whose value changed after it was delivered (e.g. a view of
+    the receive buffer that later reads overwrote), or that cannot be read any more (released view), gives a line
+    `mutated #<i> <then> -> <now>`.  Oracles treat any such line as a violation of "returns exactly those packets"."""
+
+    def __init__(self) -> None:
+        self.kept: list[tuple[int, str, Any]] = []
+
+    def add(self, p: Any, lines: list[str]) -> None:
+        """append the `pkt` line of `p` to `lines` and retain `p`"""
+        ln = pkt_line(p)
+        self.kept.append((len(self.kept), ln, p))
+        lines.append(ln)
+
+    def finish(self, lines: list[str]) -> None:
+        for i, then, p in self.kept:
+            try:
+                now = pkt_line(p)
+            except Exception as e:  # noqa: BLE001
+                now = f"unreadable ({type(e).__name__}: {e})"
+            if now != then:
+                lines.append(f"mutated #{i} {then[4:]} -> {now[4:] if now.startswith('pkt ') else now}")
+        self.kept.clear()
+
+
+def mutated(real: list[str]) -> str | None:
+    """oracle helper: the first `mutated` line of a run, as a failure text"""
+    for ln in real:
+        if ln.startswith("mutated "):
+            return "a delivered packet changed after it had been returned to the application: " + ln[8:]
+    return None
+
+
 def cut(stream: bytes, sizes: list[int]) -> list[bytes]:
     """cut `stream` following `sizes` (cyclically); zero sizes give empty chunks"""
     out, i, k = [], 0, 0
@@ -109,21 +144,25 @@ def cut(stream: bytes, sizes: list[int]) -> list[bytes]:
 
 def drive_copy(proto, chunks: list[bytes], lines: list[str], trace: list | None = None) -> StreamDataConsumer:
     consumer = StreamDataConsumer(proto)
-    for ch in chunks:
-        arg: bytes | None = ch
-        while True:
-            try:
-                p = consumer.next(arg)
-            except StopIteration:
-                break
-            except StreamProtocolParseError as e:
-                lines.append(err_line(e))
-            else:
-                lines.append(pkt_line(p))
-            arg = None
-        if trace is not None:
-            trace.append(consumer.get_buffer().nbytes)
-    lines.append("buf " + core.hexs(bytes(consumer.get_buffer())))
+    keep = Retain()
+    try:
+        for ch in chunks:
+            arg: bytes | None = ch
+            while True:
+                try:
+                    p = consumer.next(arg)
+                except StopIteration:
+                    break
+                except StreamProtocolParseError as e:
+                    lines.append(err_line(e))
+                else:
+                    keep.add(p, lines)
+                arg = None
+            if trace is not None:
+                trace.append(consumer.get_buffer().nbytes)
+        lines.append("buf " + core.hexs(bytes(consumer.get_buffer())))
+    finally:
+        keep.finish(lines)
     return consumer
 
 
@@ -132,35 +171,39 @@ def drive_buffered(proto, stream: bytes, fills: list[int], hint: int, lines: lis
     """fills: requested fill sizes (cyclic); each real fill = min(requested, room, remaining) and ≥ 1.
     `actual` receives the byte strings really written (for the model)."""
     consumer = BufferedStreamDataConsumer(proto, hint)
+    keep = Retain()
     i, k = 0, 0
     if not fills:
         fills = [1 << 30]
-    while i < len(stream):
-        try:
-            view = memoryview(consumer.get_write_buffer())
-        except RuntimeError:
-            lines.append("crashed")     # "The start position is set to the end of the buffer"
-            return consumer
-        room = view.nbytes
-        lines.append(f"room {room}")
-        n = max(1, min(fills[k % len(fills)], room, len(stream) - i))
-        k += 1
-        data = stream[i:i + n]
-        view[:n] = data
-        view.release()
-        actual.append(data)
-        i += n
-        arg: int | None = n
-        while True:
+    try:
+        while i < len(stream):
             try:
-                p = consumer.next(arg)
-            except StopIteration:
-                break
-            except StreamProtocolParseError as e:
-                lines.append(err_line(e))
-            else:
-                lines.append(pkt_line(p))
-            arg = None
+                view = memoryview(consumer.get_write_buffer())
+            except RuntimeError:
+                lines.append("crashed")     # "The start position is set to the end of the buffer"
+                return consumer
+            room = view.nbytes
+            lines.append(f"room {room}")
+            n = max(1, min(fills[k % len(fills)], room, len(stream) - i))
+            k += 1
+            data = stream[i:i + n]
+            view[:n] = data
+            view.release()
+            actual.append(data)
+            i += n
+            arg: int | None = n
+            while True:
+                try:
+                    p = consumer.next(arg)
+                except StopIteration:
+                    break
+                except StreamProtocolParseError as e:
+                    lines.append(err_line(e))
+                else:
+                    keep.add(p, lines)
+                arg = None
+    finally:
+        keep.finish(lines)
     return consumer
 
 
